@@ -50,6 +50,9 @@ func (n vpNum) big() *decimal.Big {
 
 // vpNumOrder: exact numeric order of two vpNums (-1, 0, +1) at the common exponent.
 func vpNumOrder(a, b vpNum) int {
+	if d := a.exp - b.exp; d > 12 || d < -12 {
+		return vpNumOrderWide(a, b)
+	}
 	m := a.exp
 	if b.exp < m {
 		m = b.exp
@@ -69,6 +72,36 @@ func vpNumOrder(a, b vpNum) int {
 		return 1
 	}
 	return 0
+}
+
+// vpNumOrderWide: exponents more than 12 apart (coefficients below 10^9): a
+// non-zero coefficient at the larger exponent dominates.
+func vpNumOrderWide(a, b vpNum) int {
+	sign := func(n vpNum) int {
+		if n.coef == 0 {
+			return 0
+		}
+		if n.neg {
+			return -1
+		}
+		return 1
+	}
+	sa, sb := sign(a), sign(b)
+	if sa != sb {
+		if sa < sb {
+			return -1
+		}
+		return 1
+	}
+	if sa == 0 {
+		return 0
+	}
+	// same non-zero sign: larger exponent has the larger magnitude
+	bigger := 1
+	if a.exp < b.exp {
+		bigger = -1
+	}
+	return bigger * sa
 }
 
 func vpBin(op SyntaxKind, l, r Expression) *BinaryExpression {
@@ -116,6 +149,15 @@ func vpAllCmp(data map[string]interface{}) vpCmpResults {
 func VP_C05_numbers() {
 	CB, E := vpParam("CB"), vpParam("E")
 	a, b := vpSymNum("a", CB, E), vpSymNum("b", CB, E)
+	if W := vpParam("WIDE"); W > 0 {
+		// wide scales: exponents from a sparse grid up to 10^W (values beyond 2^63 and 34 digits apart)
+		grid := []int{0, 1, W / 2, W - 1, W}
+		a.exp = grid[vpChoice("awe", len(grid))]
+		b.exp = grid[vpChoice("bwe", len(grid))]
+		if vpBool("aneg") {
+			a.exp = -a.exp
+		}
+	}
 	data := map[string]interface{}{"a": a.big(), "b": b.big()}
 	res := vpAllCmp(data)
 	vpAssert("C05/numbers/all-operators-yield-booleans", res.ok)
